@@ -16,7 +16,8 @@
 // (plus a plain-map oracle for the contents): every answer to set/rm/save/
 // load/rollback/hash/lhash must be identical on all 54 instances — in
 // particular the (version, root hash) of every save; `at N hash` must give the
-// hash recorded when N was saved on every instance that still retains N; and
+// hash recorded when N was saved on every instance that still retains N; the
+// WorkingHash right before a save must equal the saved root hash; and
 // `export N` exports version N from every instance that retains it, imports the
 // stream into an EMPTY database, and requires the imported tree (before and
 // after a reopen) to have the recorded hash and exactly the recorded contents.
@@ -275,6 +276,10 @@ func exec(t []string) (string, string) {
 		return out, "ok"
 	}
 	// every other op: run on all instances
+	workingBefore := ""
+	if t[0] == "save" && len(t) == 1 {
+		workingBefore = fmt.Sprintf("%x", ref.T.WorkingHash())
+	}
 	st0 := ref.Exec(t)
 	if st0.Err == "err:badop" {
 		return st0.Out, "-"
@@ -312,6 +317,11 @@ func exec(t []string) (string, string) {
 		}
 	}
 	if t[0] == "save" && st0.Err == "" {
+		// the hash reported for the working tree right before the save is the hash
+		// of the same history without the save/reload: it must be the saved hash
+		if workingBefore != st0.Hash && (verdict == "ok" || verdict == "-") {
+			verdict = fmt.Sprintf("VIOL:hash-config WorkingHash before save %s, saved root hash %s", workingBefore, st0.Hash)
+		}
 		for _, in := range insts {
 			if r := in.afterSave(st0.Version); r != "" && (verdict == "ok" || verdict == "-") {
 				verdict = r
